@@ -86,7 +86,7 @@ def check_case(ctx, idx, case, lines, text):
             return viol('typed attribute value %s differs: expected %s' % (k, exp[k][:80]))
     n = dict(x.split('=', 1) for x in by.get('nlri', '').split(' ')[3:] if '=' in x)
     def lst(vs):
-        return '%d[%s]' % (len(vs), ','.join(nlrienc.encode(v).hex() for v in vs))
+        return '%d[%s]' % (len(vs), ','.join('%d.%d%s~%s' % (nlrienc.AFISAFI[v['fam']] + ('+' if v.get('pid') is not None else '', nlrienc.encode(v).hex())) for v in vs))
     if n.get('convw') != lst(content['wd']) or n.get('conva') != lst(content['ann']):
         return viol('conventional NLRI differ from the encoded ones')
     if content['reach']:
